@@ -242,6 +242,10 @@ class kMinPathError(pathmodel.AbstractPathModelDAG):
             if self.weight_type == int and any(weight != round(weight) for weight in self.solution_weights_superset):
                 utils.logger.error(f"{__name__}: solution_weights_superset must contain only integer values when weight_type is int, not {self.solution_weights_superset}")
                 raise ValueError(f"solution_weights_superset must contain only integer values when weight_type is int, not {self.solution_weights_superset}")
+            # (a given weight is the weight of a path: it cannot be negative - nor NaN, which `not (w >= 0)` also catches)
+            if any(not (weight >= 0) for weight in self.solution_weights_superset):
+                utils.logger.error(f"{__name__}: solution_weights_superset must contain only non-negative values, not {self.solution_weights_superset}")
+                raise ValueError(f"solution_weights_superset must contain only non-negative values, not {self.solution_weights_superset}")
             self.k = len(self.solution_weights_superset)
             self.optimization_options["allow_empty_paths"] = True
             self.optimization_options["optimize_with_safe_paths"] = False
